@@ -1,6 +1,7 @@
 package dkg_proposal_fsm
 
 import (
+	"bytes"
 	"errors"
 	"fmt"
 	"reflect"
@@ -410,13 +411,30 @@ func (m *DKGProposalFSM) actionMasterKeyConfirmationReceived(inEvent fsm.Event, 
 		return
 	}
 
+	// All participants must announce the same public polynomial: it is the one
+	// every node keeps for signature reconstruction. A differing announcement
+	// is an error of the round, exactly as a differing master key is.
+	polyMismatched := false
+	for _, participant := range m.payload.DKGProposalPayload.Quorum {
+		if participant.Status == internal.MasterKeyConfirmed &&
+			!bytes.Equal(m.payload.DKGProposalPayload.PubPolyBz, request.PubPolyBz) {
+			polyMismatched = true
+			break
+		}
+	}
+
 	dkgProposalParticipant.DkgMasterKey = make([]byte, len(request.MasterKey))
 	copy(dkgProposalParticipant.DkgMasterKey, request.MasterKey)
-	dkgProposalParticipant.Status = internal.MasterKeyConfirmed
+	if polyMismatched {
+		dkgProposalParticipant.Status = internal.MasterKeyConfirmationError
+		dkgProposalParticipant.Error = requests.NewFSMError(errors.New("public polynomial is mismatched"))
+	} else {
+		dkgProposalParticipant.Status = internal.MasterKeyConfirmed
+		m.payload.DKGProposalPayload.PubPolyBz = request.PubPolyBz
+	}
 
 	dkgProposalParticipant.UpdatedAt = request.CreatedAt
 	m.payload.DKGProposalPayload.UpdatedAt = request.CreatedAt
-	m.payload.DKGProposalPayload.PubPolyBz = request.PubPolyBz
 
 	m.payload.DKGQuorumUpdate(request.ParticipantId, dkgProposalParticipant)
 
